@@ -1,0 +1,327 @@
+//go:build verif
+// +build verif
+
+package raft
+
+// ---------------------------------------------------------------------------
+// membership changes (C08, C11.promote-after-round, C02.config-guard, C06.cache-coherent)
+
+//@ pure VoterDiff(a Config, b Config, id uint64) bool = IsVoter(a, id) != IsVoter(b, id)
+//@ pure OneVoterDelta(a Config, b Config) bool = forall(i, j, VoterDiff(a, b, i) && VoterDiff(a, b, j) ==> i == j)
+//@ pure HasVoter(c Config) bool = NumVoters(c) >= 1
+//@ pure SameVoters(a Config, b Config) bool = forall(i, IsVoter(a, i) == IsVoter(b, i))
+
+//@ func (Node).nextAction
+//@   ensures [C08.next-action-table] n.Action == ForceRemove ==> result0 == ForceRemove
+//@   ensures [C08.next-action-table] n.Action != ForceRemove && n.Voter ==> result0 == ite(n.Action == Demote || n.Action == Remove, Demote, None)
+//@   ensures [C08.next-action-table] n.Action != ForceRemove && !n.Voter ==> result0 == ite(n.Action == Promote, Promote, ite(n.Action == Remove, Remove, None))
+//@   ensures [C11.promote-only-nonvoter] result0 == Promote ==> !n.Voter && n.Action == Promote
+//@   ensures [C08.demote-only-voter] result0 == Demote ==> n.Voter
+//@   ensures [C08.remove-only-nonvoter] result0 == Remove ==> !n.Voter
+
+//@ func (Config).clone
+//@   ensures [C08.clone-same] result0.Index == c.Index && result0.Term == c.Term
+//@   ensures [C08.clone-same] forall(k, has(result0.Nodes, k) == has(c.Nodes, k) && result0.Nodes[k] == c.Nodes[k])
+//@   ensures [C08.clone-fresh] isfresh(result0.Nodes)
+//@   loop 1 invariant isfresh(nodes) && subset(visitedset(), keys(c.Nodes))
+//@   loop 1 invariant forall(k, has(nodes, k) == visited(k)) && forall(k, visited(k) ==> nodes[k] == c.Nodes[k])
+
+// (duplicate of pure CfgStable removed: defined in verif_contracts_leader.go)
+
+//@ func (Config).isStable
+//@   ensures [C08.stable] result0 == CfgStable(c)
+//@   loop 1 invariant forall(k, visited(k) ==> c.Nodes[k].Action == None) && subset(visitedset(), keys(c.Nodes))
+
+//@ func (Configs).IsStable
+//@   ensures [C08.stable] result0 == (c.Latest.Index == c.Committed.Index && CfgStable(c.Latest))
+
+// T-std: the standard error constructors return a non-nil error and touch no raft state.
+// (func errors.New: defined in another contract file)
+// (func fmt.Errorf: defined in another contract file)
+
+//@ pure NodeOK(n Node) bool = n.ID != 0 && !(n.Action == Promote && n.Voter) && !(n.Action == Demote && !n.Voter)
+
+//@ func (Node).validate
+//@   ensures [C08.node-valid] result0 == nil ==> NodeOK(n)
+
+//@ func (Config).validate
+//@   ensures [C08.config-valid] result0 == nil ==> forall(k, has(c.Nodes, k) ==> c.Nodes[k].ID == k && NodeOK(c.Nodes[k]))
+//@   ensures [C08.voter-remains] result0 == nil ==> HasVoter(c)
+//@   loop 1 invariant forall(k, visited(k) ==> c.Nodes[k].ID == k && NodeOK(c.Nodes[k])) && subset(visitedset(), keys(c.Nodes)) && addrs != nil
+
+// ---------------------------------------------------------------------------
+// catch-up rounds (C11). time.Time is external (T-go / time): IsZero and Sub are modelled as
+// uninterpreted functions of the (wall, ext) words of their operands; time.Now() is never the zero time.
+// (ghost tzero: defined in another contract file)
+//@ ghost func tsub(uint64, int, uint64, int) int
+// T-go: the zero time.Time (wall == 0, ext == 0) reports IsZero()
+//@ axiom [T-go.zero-time] tzero(0, 0)
+// (func (time.Time).IsZero: defined in another contract file)
+//@ func (time.Time).Sub
+//@   trusted
+//@   ensures result0 == tsub(t.wall, t.ext, u.wall, u.ext)
+//@ func time.Now
+//@   trusted
+//@   ensures !tzero(result0.wall, result0.ext)
+
+//@ pure RoundDone(r *round) bool = !tzero(r.End.wall, r.End.ext)
+//@ pure RoundDur(r *round) int = tsub(r.End.wall, r.End.ext, r.Start.wall, r.Start.ext)
+
+//@ func (*round).finished
+//@   ensures result0 == RoundDone(r)
+//@ func (round).Duration
+//@   ensures result0 == tsub(r.End.wall, r.End.ext, r.Start.wall, r.Start.ext)
+//@ func (*round).finish
+//@   modifies r.End
+//@   ensures [C11.round-finish] RoundDone(r)
+//@ func (*round).begin
+// the frame and the postconditions describe the INTENDED behaviour (End may be written, so the contract is
+// consistent for callers); [C11.round-begin-open] FAILS on the current tree: begin() leaves End untouched,
+// so finished() stays true for every later round of the same node
+//@   modifies r.Ordinal, r.Start, r.LastIndex, r.End
+//@   ensures [C11.round-begin] r.LastIndex == lastIndex
+//@   ensures [C11.round-begin-open] !RoundDone(r)
+
+// ---------------------------------------------------------------------------
+// leader side of membership changes
+
+// STUB (outside area membership)
+// (func (transfer).inProgress: defined in another contract file)
+// STUB (outside area membership)
+//@ func isClosed
+//@   trusted
+// STUB (outside area membership)
+//@ func unreachable
+//@   trusted
+// STUB (outside area membership): encodes with bytes.Buffer; only the header fields matter here
+// [C18.config-roundtrip]: the ghost fields of the entry record what the encoded configuration looks like; the
+// (*Config).decode view in verif_contracts_leader.go reads them back
+//@ func (Config).encode
+//@   trusted
+//@   ensures result0 != nil && isfresh(result0) && result0.typ == entryConfig && result0.index == c.Index && result0.term == c.Term
+//@   ensures [C18.config-roundtrip] result0.gcfgok && result0.gcgood == CfgGood(c) && forall(k, result0.gcself[k] == SelfOK(c, k))
+
+// (func (*task).reply: defined in another contract file)
+
+//@ pure ReplId(p *replication) uint64 = p.status.id
+// (engine) a loop that assigns a local Node variable havocs the Node fields of EVERY object at the loop head;
+// the invariant forall(p, !isfresh(p) ==> NodeVal(p) == old(NodeVal(p))) restates that pre-existing Node objects keep their value
+//@ pure NodeVal(p *Node) Node = *p
+//@ pure MbCanChange(l *leader) bool = CfgCommitted(l.storage) && !l.transfer.timer.active
+//@ pure MbReplsWF(l *leader) bool = l.repls != nil && !has(l.repls, l.nid) && forall(k, has(l.repls, k) ==> l.repls[k] != nil && l.repls[k].status.id == k)
+//@ pure MbLeaderWF(l *leader) bool = l.Raft != nil && RaftWF(l.Raft) && l.resolver != nil && l.transfer.timer != nil && MbReplsWF(l)
+//@ pure KeysOK(c Config) bool = forall(k, has(c.Nodes, k) ==> c.Nodes[k].ID == k)
+//@ pure Anchor(c Config) bool = exists(a, has(c.Nodes, a) && c.Nodes[a].Voter && c.Nodes[a].Action == None)
+
+// (*leader).storeEntry: the real contract is in verif_contracts_leader.go (requires LeaderWF(l) && l.flushed >= l.commitIndex,
+// ensures LeaderWF(l), the append-only / own-term / flush / configs-change-only-forward clauses and that replication ids
+// are untouched). Its frame is explicit instead of `modifies *`: `*` would also havoc the CONTENTS of every
+// map[uint64]Node, so no fact about the caller's `config` value (anchor voter, keys == ids, same voters as Latest) would
+// survive a started action. storeEntry and its callees write Node maps only through freshly allocated ones
+// ((*Config).decode, (Config).clone).
+// Well-formedness used by the leader-side functions below (defined in verif_contracts_leader.go):
+//   LeaderBase(l) / LeaderWF0(l) = LeaderBase + ReplsCover / LeaderWF(l) = LeaderWF0 + LeaderCache; they imply MbLeaderWF(l).
+
+//@ func (*leader).canChangeConfig
+//@   requires l.Raft != nil && l.storage != nil && l.transfer.timer != nil
+//@   ensures [C02.config-guard] result0 == MbCanChange(l)
+
+//@ func (*leader).doChangeConfig
+//@   maypanic OpError
+//@   nilable t
+//@   requires LeaderWF(l) && l.flushed >= l.commitIndex
+//@   requires [C08.prev-committed] CfgCommitted(l.storage)
+//@   requires [C08.own-term-commit] l.commitIndex >= l.startIndex
+//@   requires [C08.one-voter-delta] OneVoterDelta(l.configs.Latest, config)
+//@   requires [C08.voter-remains] HasVoter(config)
+//@   requires [C08.anchor] Anchor(config)
+//@   requires [C08.keys-are-ids] KeysOK(config)
+//@   requires [C11.self-not-promoted] SelfOK(config, l.nid)
+//@   modifies l.node, l.numVoters, l.neHead, l.neTail, l.waitStable, l.state, l.leader, l.commitIndex, l.storage.lastLogIndex, l.storage.lastLogTerm, l.storage.gterm, l.storage.gtyp, l.storage.flushed, l.storage.configs, Log.glast, contents(l.repls), replication.status, round.Ordinal, round.Start, round.End, round.LastIndex, newEntry.next, entry.index, entry.term, task.result, task.greplied, contents(l.resolver.addrs), contents(l.connPools), closeRequested, sortgen
+//@   ensures LeaderWF(l) && l.term == old(l.term) && l.nid == old(l.nid) && l.Raft == old(l.Raft) && l.storage == old(l.storage) && l.repls == old(l.repls) && l.startIndex == old(l.startIndex) && l.commitIndex >= old(l.commitIndex) && l.lastLogIndex >= old(l.lastLogIndex)
+//@   ensures l.commitIndex != old(l.commitIndex) ==> l.commitIndex >= l.startIndex
+//@   ensures forall(p, ReplId(p) == old(ReplId(p)))
+//@   ensures l.configs.Latest.Index >= old(l.configs.Latest.Index)
+//@   ensures old(PoolsInv(l.Raft)) ==> PoolsInv(l.Raft)
+//@   ensures [C04.leader-append-only] forall(i, i <= old(l.lastLogIndex) ==> l.gterm[i] == old(l.gterm[i]) && l.gtyp[i] == old(l.gtyp[i]))
+//@   ensures [C02.own-term-entries] forall(i, old(l.lastLogIndex) < i && i <= l.lastLogIndex ==> l.gterm[i] == l.term)
+//@   ensures [C06.flush-before-advance] old(l.flushed >= l.commitIndex) ==> l.flushed >= l.commitIndex
+//@   ensures old(CfgCommitted(l.storage)) && l.configs.Latest.Index == old(l.configs.Latest.Index) ==> l.configs.Latest == old(l.configs.Latest) && l.configs.Committed == old(l.configs.Committed)
+
+//@ pure MbUnchanged(l *leader, lat Config, com Config, li uint64, ci uint64) bool = l.configs.Latest == lat && l.configs.Committed == com && l.lastLogIndex == li && l.commitIndex == ci
+
+//@ func (*leader).checkConfigAction
+//@   maypanic OpError
+//@   nilable t
+//@   requires LeaderWF0(l) && l.flushed >= l.commitIndex
+// the cached node / numVoters matter only when an action can be started (doChangeConfig -> storeEntry -> majority)
+//@   requires [C06.cache-coherent] MbCanChange(l) ==> LeaderCache(l)
+//@   requires [C08.actions-fresh] MbCanChange(l) ==> SameVoters(l.configs.Latest, config)
+//@   requires [C08.anchor] Anchor(config)
+//@   requires [C08.keys-are-ids] KeysOK(config)
+//@   requires [C11.self-not-promoted] SelfOK(config, l.nid)
+//@   modifies status.round, l.node, l.numVoters, l.neHead, l.neTail, l.waitStable, l.state, l.leader, l.commitIndex, l.storage.lastLogIndex, l.storage.lastLogTerm, l.storage.gterm, l.storage.gtyp, l.storage.flushed, l.storage.configs, Log.glast, contents(l.repls), replication.status, round.Ordinal, round.Start, round.End, round.LastIndex, newEntry.next, entry.index, entry.term, task.result, task.greplied, contents(l.resolver.addrs), contents(l.connPools), closeRequested, sortgen
+//@   ensures LeaderWF0(l) && (old(LeaderCache(l)) ==> LeaderCache(l)) && l.term == old(l.term) && l.nid == old(l.nid) && l.Raft == old(l.Raft) && l.storage == old(l.storage) && l.repls == old(l.repls) && l.startIndex == old(l.startIndex) && l.commitIndex >= old(l.commitIndex) && l.lastLogIndex >= old(l.lastLogIndex)
+//@   ensures l.commitIndex != old(l.commitIndex) ==> l.commitIndex >= l.startIndex
+//@   ensures forall(p, ReplId(p) == old(ReplId(p)))
+//@   ensures l.configs.Latest.Index >= old(l.configs.Latest.Index)
+//@   ensures old(PoolsInv(l.Raft)) ==> PoolsInv(l.Raft)
+//@   ensures [C04.leader-append-only] forall(i, i <= old(l.lastLogIndex) ==> l.gterm[i] == old(l.gterm[i]) && l.gtyp[i] == old(l.gtyp[i]))
+//@   ensures [C02.own-term-entries] forall(i, old(l.lastLogIndex) < i && i <= l.lastLogIndex ==> l.gterm[i] == l.term)
+//@   ensures [C06.flush-before-advance] old(l.flushed >= l.commitIndex) ==> l.flushed >= l.commitIndex
+//@   ensures [C08.actions-fresh-kept] l.configs.Latest.Index == old(l.configs.Latest.Index) ==> l.configs.Latest == old(l.configs.Latest)
+//@   ensures [C08.configs-change-only-forward] old(CfgCommitted(l.storage)) && l.configs.Latest.Index == old(l.configs.Latest.Index) ==> l.configs.Committed == old(l.configs.Committed)
+//@   ensures status.id == old(status.id)
+//@   ensures [C02.config-guard] old(!MbCanChange(l)) ==> MbUnchanged(l, old(l.configs.Latest), old(l.configs.Committed), old(l.lastLogIndex), old(l.commitIndex)) && !MbCanChange(l) && l.node == old(l.node) && l.numVoters == old(l.numVoters) && forall(k, has(l.repls, k) == old(has(l.repls, k)) && l.repls[k] == old(l.repls[k])) && l.flushed == old(l.flushed) && forall(i, l.gterm[i] == old(l.gterm[i]) && l.gtyp[i] == old(l.gtyp[i]))
+//@   ensures [C11.remove-after-ack] old(!config.Nodes[status.id].Voter && config.Nodes[status.id].Action == Remove && status.matchIndex < l.configs.Latest.Index) ==> MbUnchanged(l, old(l.configs.Latest), old(l.configs.Committed), old(l.lastLogIndex), old(l.commitIndex))
+//@   ensures [C08.no-action-no-change] old(config.Nodes[status.id].Action == None) ==> MbUnchanged(l, old(l.configs.Latest), old(l.configs.Committed), old(l.lastLogIndex), old(l.commitIndex))
+//@   ensures [C11.promote-after-round] old(!config.Nodes[status.id].Voter && config.Nodes[status.id].Action == Promote && (status.round == nil ==> status.matchIndex < l.lastLogIndex) && (status.round != nil ==> !RoundDone(status.round) && status.matchIndex < status.round.LastIndex)) ==> MbUnchanged(l, old(l.configs.Latest), old(l.configs.Committed), old(l.lastLogIndex), old(l.commitIndex))
+//@   ensures [C11.promote-threshold] old(!config.Nodes[status.id].Voter && config.Nodes[status.id].Action == Promote && status.round != nil && RoundDone(status.round) && status.matchIndex < l.lastLogIndex && RoundDur(status.round) > l.promoteThreshold) ==> MbUnchanged(l, old(l.configs.Latest), old(l.configs.Committed), old(l.lastLogIndex), old(l.commitIndex))
+
+// the parameter is renamed: `config` is re-assigned by the self arm, loop invariants must speak about its CURRENT value
+//@ func (*leader).checkConfigActions params(l, t, cfg0)
+//@   trustframe the join of the seven paths reaching the loop forgets fields no path writes (engine limit); every write in the body goes through checkConfigAction / doChangeConfig, whose frames are proved and contained in this one
+//@   maypanic OpError
+//@   nilable t
+//@   requires LeaderWF0(l) && l.flushed >= l.commitIndex
+// the cached node / numVoters matter only when an action can be started (doChangeConfig -> storeEntry -> majority);
+// (*leader).changeConfig calls with a stale numVoters, but then the configuration is not committed
+//@   requires [C06.cache-coherent] MbCanChange(l) ==> LeaderCache(l)
+//@   requires [C08.actions-fresh] SameVoters(l.configs.Latest, cfg0)
+//@   requires [C08.anchor] Anchor(cfg0)
+//@   requires [C08.keys-are-ids] KeysOK(cfg0)
+//@   requires [C11.self-not-promoted] cfg0.Nodes[l.nid].Action != Promote && cfg0.Nodes[l.nid].Action <= ForceRemove
+//@   modifies l.node, l.numVoters, l.neHead, l.neTail, l.waitStable, l.state, l.leader, l.commitIndex, l.storage.lastLogIndex, l.storage.lastLogTerm, l.storage.gterm, l.storage.gtyp, l.storage.flushed, l.storage.configs, Log.glast, contents(l.repls), replication.status, round.Ordinal, round.Start, round.End, round.LastIndex, newEntry.next, entry.index, entry.term, task.result, task.greplied, contents(l.resolver.addrs), contents(l.connPools), closeRequested, sortgen
+//@   ensures LeaderWF0(l) && (old(LeaderCache(l)) ==> LeaderCache(l)) && l.term == old(l.term) && l.nid == old(l.nid) && l.Raft == old(l.Raft) && l.storage == old(l.storage) && l.repls == old(l.repls) && l.startIndex == old(l.startIndex) && l.commitIndex >= old(l.commitIndex) && l.lastLogIndex >= old(l.lastLogIndex)
+//@   ensures l.commitIndex != old(l.commitIndex) ==> l.commitIndex >= l.startIndex
+//@   ensures forall(p, ReplId(p) == old(ReplId(p)))
+//@   ensures l.configs.Latest.Index >= old(l.configs.Latest.Index)
+//@   ensures old(PoolsInv(l.Raft)) ==> PoolsInv(l.Raft)
+//@   ensures [C04.leader-append-only] forall(i, i <= old(l.lastLogIndex) ==> l.gterm[i] == old(l.gterm[i]) && l.gtyp[i] == old(l.gtyp[i]))
+//@   ensures [C02.own-term-entries] forall(i, old(l.lastLogIndex) < i && i <= l.lastLogIndex ==> l.gterm[i] == l.term)
+//@   ensures [C06.flush-before-advance] old(l.flushed >= l.commitIndex) ==> l.flushed >= l.commitIndex
+//@   ensures [C02.config-guard] old(!MbCanChange(l)) ==> MbUnchanged(l, old(l.configs.Latest), old(l.configs.Committed), old(l.lastLogIndex), old(l.commitIndex)) && !MbCanChange(l) && l.node == old(l.node) && l.numVoters == old(l.numVoters) && forall(k, has(l.repls, k) == old(has(l.repls, k)) && l.repls[k] == old(l.repls[k])) && l.flushed == old(l.flushed) && forall(i, l.gterm[i] == old(l.gterm[i]) && l.gtyp[i] == old(l.gtyp[i]))
+//@   ensures [C08.actions-fresh-kept] l.configs.Latest.Index == old(l.configs.Latest.Index) ==> l.configs.Latest == old(l.configs.Latest)
+//@   ensures [C08.configs-change-only-forward] old(CfgCommitted(l.storage)) && l.configs.Latest.Index == old(l.configs.Latest.Index) ==> l.configs.Committed == old(l.configs.Committed)
+//@   loop 1 invariant LeaderWF0(l) && (old(LeaderCache(l)) ==> LeaderCache(l)) && (MbCanChange(l) ==> LeaderCache(l)) && l.flushed >= l.commitIndex && l.term == old(l.term) && l.nid == old(l.nid)
+//@   loop 1 invariant l.Raft == old(l.Raft) && l.storage == old(l.storage) && l.repls == old(l.repls) && l.startIndex == old(l.startIndex) && l.commitIndex >= old(l.commitIndex) && l.lastLogIndex >= old(l.lastLogIndex) && (l.commitIndex != old(l.commitIndex) ==> l.commitIndex >= l.startIndex)
+//@   loop 1 invariant Anchor(config) && KeysOK(config) && SelfOK(config, l.nid)
+// (engine limitation, reported) 7 paths reach the loop (no self action, or {tracer set, not set} x {Demote, Remove,
+// ForceRemove}), one more than the engine's merge threshold: the arrivals are merged and the join forgets, for EVERY
+// object, the fields that doChangeConfig may write on l / l.Raft / l.storage / the three maps. The two
+// frame[only-modifies-listed] obligations of this function therefore cannot be discharged (they would need one
+// "all other objects unchanged" invariant per field, and map contents cannot be quantified over).
+//@   loop 1 invariant forall(p, ReplId(p) == old(ReplId(p)))
+//@   loop 1 invariant l.configs.Latest.Index >= old(l.configs.Latest.Index)
+//@   loop 1 invariant old(PoolsInv(l.Raft)) ==> PoolsInv(l.Raft)
+//@   loop 1 invariant [C04.leader-append-only] forall(i, i <= old(l.lastLogIndex) ==> l.gterm[i] == old(l.gterm[i]) && l.gtyp[i] == old(l.gtyp[i]))
+//@   loop 1 invariant [C02.own-term-entries] forall(i, old(l.lastLogIndex) < i && i <= l.lastLogIndex ==> l.gterm[i] == l.term)
+//@   loop 1 invariant [C06.flush-before-advance] old(l.flushed >= l.commitIndex) ==> l.flushed >= l.commitIndex
+//@   loop 1 invariant [C08.actions-fresh-kept] l.configs.Latest.Index == old(l.configs.Latest.Index) ==> l.configs.Latest == old(l.configs.Latest)
+//@   loop 1 invariant [C08.configs-change-only-forward] old(CfgCommitted(l.storage)) && l.configs.Latest.Index == old(l.configs.Latest.Index) ==> l.configs.Committed == old(l.configs.Committed)
+//@   loop 1 invariant [C02.config-guard] old(!MbCanChange(l)) ==> MbUnchanged(l, old(l.configs.Latest), old(l.configs.Committed), old(l.lastLogIndex), old(l.commitIndex)) && !MbCanChange(l) && l.node == old(l.node) && l.numVoters == old(l.numVoters) && forall(k, has(l.repls, k) == old(has(l.repls, k)) && l.repls[k] == old(l.repls[k])) && l.flushed == old(l.flushed) && forall(i, l.gterm[i] == old(l.gterm[i]) && l.gtyp[i] == old(l.gtyp[i]))
+//@   loop 1 invariant [C08.actions-fresh] l.configs.Latest.Index == old(l.configs.Latest.Index) ==> SameVoters(l.configs.Latest, config)
+
+//@ func (*leader).onChangeConfig
+//@   maypanic OpError
+//@   requires LeaderWF(l) && l.flushed >= l.commitIndex
+//@   requires KeysOK(l.configs.Latest)
+//@   requires [C11.leader-is-voter] CfgCommitted(l.storage) ==> IsVoter(l.configs.Latest, l.nid)
+//@   modifies t.task.result, t.task.greplied, l.node, l.numVoters, l.neHead, l.neTail, l.waitStable, l.state, l.leader, l.commitIndex, l.storage.lastLogIndex, l.storage.lastLogTerm, l.storage.gterm, l.storage.gtyp, l.storage.flushed, l.storage.configs, Log.glast, contents(l.repls), replication.status, round.Ordinal, round.Start, round.End, round.LastIndex, newEntry.next, entry.index, entry.term, task.result, task.greplied, contents(l.resolver.addrs), contents(l.connPools), closeRequested, sortgen
+//@   ensures LeaderWF(l) && l.flushed >= l.commitIndex && l.startIndex == old(l.startIndex) && l.commitIndex >= old(l.commitIndex) && l.lastLogIndex >= old(l.lastLogIndex)
+//@   ensures [C02.config-guard] old(!CfgCommitted(l.storage)) ==> MbUnchanged(l, old(l.configs.Latest), old(l.configs.Committed), old(l.lastLogIndex), old(l.commitIndex))
+//@   ensures [C08.own-term-commit] old(l.commitIndex < l.startIndex) ==> MbUnchanged(l, old(l.configs.Latest), old(l.configs.Committed), old(l.lastLogIndex), old(l.commitIndex))
+//@   ensures [C08.stale-request] old(t.newConf.Index != l.configs.Latest.Index) ==> MbUnchanged(l, old(l.configs.Latest), old(l.configs.Committed), old(l.lastLogIndex), old(l.commitIndex))
+//@   ensures [C08.user-edit-keeps-voters] old(!SameVoters(l.configs.Latest, t.newConf)) ==> MbUnchanged(l, old(l.configs.Latest), old(l.configs.Committed), old(l.lastLogIndex), old(l.commitIndex))
+//@   ensures [C08.voter-remains] old(!Anchor(t.newConf)) ==> MbUnchanged(l, old(l.configs.Latest), old(l.configs.Committed), old(l.lastLogIndex), old(l.commitIndex))
+//@   loop 1 invariant forall(p, !isfresh(p) ==> NodeVal(p) == old(NodeVal(p)))
+//@   loop 2 invariant forall(p, !isfresh(p) ==> NodeVal(p) == old(NodeVal(p)))
+//@   loop 3 invariant forall(p, !isfresh(p) ==> NodeVal(p) == old(NodeVal(p)))
+//@   loop 1 invariant [C08.user-edit-keeps-voters] forall(k, visited(k) ==> has(t.newConf.Nodes, k) && t.newConf.Nodes[k].Voter == l.configs.Latest.Nodes[k].Voter) && subset(visitedset(), keys(l.configs.Latest.Nodes))
+//@   loop 2 invariant [C08.user-edit-keeps-voters] forall(k, has(l.configs.Latest.Nodes, k) ==> has(t.newConf.Nodes, k) && t.newConf.Nodes[k].Voter == l.configs.Latest.Nodes[k].Voter)
+//@   loop 2 invariant [C08.user-edit-keeps-voters] forall(k, visited(k) && !has(l.configs.Latest.Nodes, k) ==> !t.newConf.Nodes[k].Voter) && subset(visitedset(), keys(t.newConf.Nodes))
+//@   loop 3 invariant [C08.user-edit-keeps-voters] SameVoters(l.configs.Latest, t.newConf)
+//@   loop 3 invariant [C08.voter-remains] voter != 0 ==> has(t.newConf.Nodes, voter) && t.newConf.Nodes[voter].Voter && t.newConf.Nodes[voter].Action == None
+//@   loop 3 invariant [C08.voter-remains] voter == 0 ==> forall(k, visited(k) ==> !(t.newConf.Nodes[k].Voter && t.newConf.Nodes[k].Action == None))
+//@   loop 3 invariant subset(visitedset(), keys(t.newConf.Nodes))
+
+// the leader area's contract (labels, props and the matchIndex clause restored in the merge)
+//@ func (*leader).addReplication
+//@   requires l.Raft != nil && l.storage != nil && PoolsInv(l.Raft) && l.repls != nil && l.log != nil && l.log.glast == l.lastLogIndex
+//@   requires [C15.no-self-replication] n.ID != l.nid
+//@   requires [C15.view-bounds] l.removeLTE <= l.lastLogIndex
+//@   modifies contents(l.repls), contents(l.connPools)
+//@   props C15
+//@   ensures has(l.repls, n.ID) && l.repls[n.ID] != nil && isfresh(l.repls[n.ID]) && l.repls[n.ID].status.id == n.ID && l.repls[n.ID].status.matchIndex == 0 && l.repls[n.ID].status.node == n && !l.repls[n.ID].status.removed
+//@   ensures forall(k, k != n.ID ==> has(l.repls, k) == old(has(l.repls, k)) && l.repls[k] == old(l.repls[k]))
+//@   ensures PoolsInv(l.Raft)
+
+//@ func (*leader).changeConfig
+//@   maypanic OpError
+//@   requires LeaderWF0(l) && l.flushed >= l.commitIndex
+//@   requires [C08.config-index-grows] config.Index > l.configs.Latest.Index
+//@   requires config.Index <= l.lastLogIndex
+//@   requires [C08.voter-remains] HasVoter(config)
+//@   requires [C08.anchor] Anchor(config)
+//@   requires [C08.keys-are-ids] KeysOK(config)
+//@   requires [C11.self-not-promoted] config.Nodes[l.nid].Action != Promote && config.Nodes[l.nid].Action <= ForceRemove
+//@   modifies l.node, l.numVoters, l.neHead, l.neTail, l.waitStable, l.state, l.leader, l.commitIndex, l.storage.lastLogIndex, l.storage.lastLogTerm, l.storage.gterm, l.storage.gtyp, l.storage.flushed, l.storage.configs, Log.glast, contents(l.repls), replication.status, round.Ordinal, round.Start, round.End, round.LastIndex, newEntry.next, entry.index, entry.term, task.result, task.greplied, contents(l.resolver.addrs), contents(l.connPools), closeRequested, sortgen
+//@   ensures LeaderWF0(l) && l.term == old(l.term) && l.nid == old(l.nid) && l.commitIndex == old(l.commitIndex) && l.lastLogIndex == old(l.lastLogIndex)
+//@   ensures forall(p, ReplId(p) == old(ReplId(p)))
+//@   ensures [C04.leader-append-only] forall(i, l.gterm[i] == old(l.gterm[i]) && l.gtyp[i] == old(l.gtyp[i]))
+//@   ensures [C06.flush-before-advance] l.flushed == old(l.flushed)
+//@   ensures l.startIndex == old(l.startIndex)
+//@   ensures [C08.adopt] l.configs.Latest == config && l.configs.Committed == old(l.configs.Latest)
+//@   ensures [C06.cache-coherent] l.node == config.Nodes[l.nid]
+// expected to FAIL on the current tree (D3): numVoters is recomputed from the PREVIOUS Latest
+//@   ensures [C06.cache-coherent] l.numVoters == NumVoters(config)
+//@   ensures [C08.repls-match-config] forall(k, has(l.repls, k) == (has(config.Nodes, k) && k != l.nid))
+//@   loop 1 invariant LeaderBase(l) && l.flushed == old(l.flushed) && l.commitIndex == old(l.commitIndex) && l.lastLogIndex == old(l.lastLogIndex) && l.removeLTE == old(l.removeLTE) && l.log == old(l.log) && l.log.glast == l.lastLogIndex
+//@   loop 1 invariant l.configs.Latest == config && l.configs.Committed == old(l.configs.Latest) && l.node == config.Nodes[l.nid] && (l.numVoters == old(NumVoters(l.configs.Latest)) || l.numVoters == NumVoters(config))
+//@   loop 1 invariant forall(p, ReplId(p) == old(ReplId(p)))
+//@   loop 1 invariant forall(k, visited(k) && has(l.repls, k) ==> has(config.Nodes, k))
+//@   loop 2 invariant LeaderBase(l) && l.flushed == old(l.flushed) && l.commitIndex == old(l.commitIndex) && l.lastLogIndex == old(l.lastLogIndex) && l.removeLTE == old(l.removeLTE) && l.log == old(l.log) && l.log.glast == l.lastLogIndex
+//@   loop 2 invariant l.configs.Latest == config && l.configs.Committed == old(l.configs.Latest) && l.node == config.Nodes[l.nid] && (l.numVoters == old(NumVoters(l.configs.Latest)) || l.numVoters == NumVoters(config))
+//@   loop 2 invariant forall(p, !isfresh(p) ==> ReplId(p) == old(ReplId(p)))
+//@   loop 2 invariant forall(p, !isfresh(p) ==> NodeVal(p) == old(NodeVal(p)))
+//@   loop 2 invariant forall(k, has(l.repls, k) ==> has(config.Nodes, k) && k != l.nid)
+//@   loop 2 invariant forall(k, visited(k) && k != l.nid ==> has(l.repls, k)) && subset(visitedset(), keys(config.Nodes))
+
+// ---------------------------------------------------------------------------
+// bootstrap (C08, C11)
+
+// STUB (outside area membership)
+//@ func notLeaderError
+//@   requires r.storage != nil
+//@   ensures result0.Lost == lost
+// STUB (outside area membership): storage.go; appends the config entry at index 1, flushes, sets term 1;
+// storage faults are recovered into the returned error
+//@ func (*storage).bootstrap
+//@   trusted
+//@   requires TermInv(s)
+//@   modifies s.lastLogIndex, s.lastLogTerm, s.gterm, s.gtyp, s.flushed, Log.glast, s.term, s.votedFor, s.termVal.v1, s.termVal.v2, fs
+//@   ensures result0 == nil ==> TermInv(s) && s.term == 1 && s.lastLogIndex == 1 && s.lastLogTerm == 1
+
+//@ func (*Raft).bootstrap
+//@   requires RaftWF(r) && r.resolver != nil
+//@   modifies t.task.result, t.task.greplied, r.state, r.leader, r.storage.configs, contents(r.resolver.addrs), r.storage.lastLogIndex, r.storage.lastLogTerm, r.storage.gterm, r.storage.gtyp, r.storage.flushed, Log.glast, r.storage.term, r.storage.votedFor, r.storage.termVal.v1, r.storage.termVal.v2, fs
+//@   ensures [C08.bootstrap-once] old(r.configs.Latest.Index) > 0 ==> r.configs.Latest == old(r.configs.Latest) && r.configs.Committed == old(r.configs.Committed) && r.state == old(r.state) && r.lastLogIndex == old(r.lastLogIndex) && r.term == old(r.term)
+//@   ensures [C08.bootstrap] r.configs.Latest.Index != old(r.configs.Latest.Index) ==> r.configs.Latest.Index == 1 && r.configs.Latest.Term == 1 && r.configs.Committed == old(r.configs.Latest) && r.state == Candidate && r.lastLogIndex == 1 && r.term == 1
+//@   ensures [C08.voter-remains] r.configs.Latest.Index != old(r.configs.Latest.Index) ==> HasVoter(r.configs.Latest) && Anchor(r.configs.Latest) && KeysOK(r.configs.Latest) && CfgStable(r.configs.Latest)
+//@   ensures [C11.bootstrap-self-voter] r.configs.Latest.Index != old(r.configs.Latest.Index) ==> IsVoter(r.configs.Latest, r.nid)
+//@   ensures [C08.bootstrap] r.configs.Latest.Index == old(r.configs.Latest.Index) ==> r.configs.Latest == old(r.configs.Latest) && r.configs.Committed == old(r.configs.Committed) && r.state == old(r.state)
+
+//@ func (*leader).beginFinishedRounds
+//@   requires l.Raft != nil && l.storage != nil && MbReplsWF(l)
+//@   modifies round.Ordinal, round.Start, round.LastIndex, round.End
+//@   ensures [C11.rounds-restarted] forall(k, has(l.repls, k) && l.repls[k].status.round != nil ==> !RoundDone(l.repls[k].status.round))
+//@   ensures [C11.rounds-restarted] forall(k, has(l.repls, k) && l.repls[k].status.round != nil && old(RoundDone(l.repls[k].status.round)) ==> l.repls[k].status.round.LastIndex == l.lastLogIndex)
+//@   loop 1 invariant subset(visitedset(), keys(l.repls))
+//@   loop 1 invariant forall(k, visited(k) && l.repls[k].status.round != nil ==> !RoundDone(l.repls[k].status.round))
+//@   loop 1 invariant forall(k, has(l.repls, k) && l.repls[k].status.round != nil && !RoundDone(l.repls[k].status.round) && old(RoundDone(l.repls[k].status.round)) ==> l.repls[k].status.round.LastIndex == l.lastLogIndex)
+
+//@ func (*leader).onWaitForStableConfig
+//@   requires l.Raft != nil && l.storage != nil
+//@   modifies t.task.result, t.task.greplied, l.waitStable, elems(waitForStableConfig)
+//@   ensures [C08.stable-wait] old(CfgCommitted(l.storage) && CfgStable(l.configs.Latest)) ==> l.waitStable == old(l.waitStable)
+//@   ensures [C08.stable-wait] !old(CfgCommitted(l.storage) && CfgStable(l.configs.Latest)) ==> len(l.waitStable) == old(len(l.waitStable)) + 1 && t.task.result == old(t.task.result)
